@@ -134,6 +134,12 @@ def gen(ctx):
     if min(i_set, i_res, i_reset, i_ret) < 0 or not (i_set < i_res):
         raise RuntimeError("cannot recognise the stack-top bracket of coroutine.resume")
     out["STACKTOP_RESET_BEFORE_ERROR_RETURN"] = i_res < i_reset < i_ret
+    # coroutine.create registers the WHOLE coroutine block (header, storage and stack) with the collector
+    mreg = re.search(r"gc:register\(co,\s*([^,]+),\s*0,\s*coroutine_gc,\s*nilptr\)", cosrc)
+    if not mreg:
+        raise RuntimeError("cannot find the gc:register call of coroutine.create")
+    out["coroutine_registered_size_expr"] = mreg.group(1).strip()
+    out["CORO_REGISTERED_WITH_CORO_SIZE"] = out["coroutine_registered_size_expr"] == "desc.coro_size"
     if not re.search(r"self\.stacktop\s*==\s*0\s+and\s+\(@usize\)\(&regsbuf\)\s+or\s+self\.stacktop", gcsrc):
         raise RuntimeError("cannot find the 'stacktop == 0 and current frame or stacktop' rule of GC_scanstack")
     out["WORD_SIZE"] = 8
@@ -146,7 +152,8 @@ def gen(ctx):
     txt += "Definition DEFAULT_PAUSE : Z := %d%%Z.\n" % out["DEFAULT_PAUSE"]
     txt += "Definition PAUSE_SCALE : Z := %d%%Z.\n" % out["PAUSE_SCALE"]
     txt += "Definition DESTROY_SWEEPS : nat := %d.\n" % out["DESTROY_SWEEPS"]
-    for name in ("AUTO_LEAF_ON_REGISTER", "SCAN_SIZE_TEST", "RESIZE_BEFORE_STEP", "STACKTOP_RESET_BEFORE_ERROR_RETURN"):
+    for name in ("AUTO_LEAF_ON_REGISTER", "SCAN_SIZE_TEST", "RESIZE_BEFORE_STEP", "STACKTOP_RESET_BEFORE_ERROR_RETURN",
+                 "CORO_REGISTERED_WITH_CORO_SIZE"):
         txt += "Definition %s : bool := %s.\n" % (name, "true" if out[name] else "false")
     vlib.write_if_changed(os.path.join(vlib.coq_dir(ID), "Gen.v"), txt)
     return out
@@ -1157,6 +1164,9 @@ def correspond(ctx):
             continue   # the stack switch needs sanitizer fiber annotations the library only has for its own frames
         costats[tag] = coroutine_stream(ctx, tag, extra)
         evaluations += costats[tag]["commands"]
+    if "release" not in costats:   # quick: the coroutine stream is cheap, run it on the optimised build as well
+        costats["release"] = coroutine_stream(ctx, "release", ["--release"])
+        evaluations += costats["release"]["commands"]
     return {
         "coroutine_stream_runtime_sampled": costats,
         "evaluations": evaluations,
